@@ -376,7 +376,20 @@ func jsonSame(a, b any) bool {
 		}
 		rx, ok1 := new(big.Rat).SetString(x.String())
 		ry, ok2 := new(big.Rat).SetString(y.String())
-		return ok1 && ok2 && rx.Cmp(ry) == 0
+		if ok1 && ok2 && rx.Cmp(ry) == 0 {
+			return true
+		}
+		// Schema numbers are float64 values (encoding/json's decoding); Marshal writes the shortest text that
+		// denotes the SAME float64, which for a magnitude beyond 2^53 need not be the same decimal digits
+		// (2^64 is written 18446744073709552000). Two texts are the same JSON number here iff they are the same float64.
+		fx, e1 := x.Float64()
+		fy, e2 := y.Float64()
+		return e1 == nil && e2 == nil && fx == fy && new(big.Rat).SetFloat64(fx) != nil && (ok1 && ok2) && func() bool {
+			// only beyond the range where float64 is exact on integers; below it the digits must agree
+			lim := new(big.Rat).SetFloat64(9007199254740992)
+			ax := new(big.Rat).Abs(rx)
+			return ax.Cmp(lim) > 0
+		}()
 	case map[string]any:
 		y, ok := b.(map[string]any)
 		if !ok || len(x) != len(y) {
